@@ -1070,6 +1070,124 @@ def attachment_probe(repo):
 
 
 
+def recursion_search(obligation, repo):
+    """`decreases#recursion-*` / `decreases#mutual-recursion-*` (round 7): native calls of the recursive function on small FINITE trees -- ElementTree
+    elements carrying the tag constants of its module at depth 1 and 2, nested lists / dicts / tuples, a dataclass instance -- with the other
+    parameters at their defaults or simple values.  A RecursionError on a tree of depth <= 3 is unbounded recursion (the interpreter cut it)."""
+    import dataclasses
+    import importlib
+    import inspect
+    import itertools
+    import re as _re
+    import typing
+    import xml.etree.ElementTree as ET
+    try:
+        fileq = obligation.split("/", 1)[1].split("/decreases")[0]
+        fname, q = fileq.split("::")
+    except Exception:  # noqa
+        return None
+    hits = glob.glob(os.path.join(repo, "sharepoint2text", "**", fname), recursive=True)
+    if not hits:
+        return None
+    modname = os.path.relpath(hits[0], repo)[:-3].replace(os.sep, ".")
+    try:
+        mod = importlib.import_module(modname)
+        src = open(hits[0]).read()
+    except Exception:  # noqa
+        return None
+    tags = []
+    for v in list(vars(mod).values()):
+        for x in (v.values() if isinstance(v, dict) else v if isinstance(v, (list, tuple, set, frozenset)) else [v]):
+            if isinstance(x, str) and 0 < len(x) < 120 and (x.startswith("{") or x.isidentifier()) and x not in tags:
+                tags.append(x)
+    local_names = sorted(set(_re.findall(r"[\"'}:]([A-Za-z][\w-]{0,30})[\"']", src)))
+    for ns in [v for v in vars(mod).values() if isinstance(v, dict) and v and all(isinstance(k, str) and isinstance(u, str) for k, u in v.items())]:
+        for uri in ns.values():
+            if uri.startswith(("http", "urn:")):
+                for nm in local_names:
+                    t = "{%s}%s" % (uri, nm)
+                    if t not in tags and len(tags) < 900:
+                        tags.append(t)
+    tags = tags[:900] or ["a", "b"]
+
+    def tree(root_tag, inner):
+        r = ET.Element(root_tag)
+        r.text = "x"
+        for t in inner:
+            c = ET.SubElement(r, t)
+            c.text, c.tail = "y", "z"
+            ET.SubElement(c, inner[0]).text = "w"
+        return r
+
+    @dataclasses.dataclass
+    class _D:
+        a: object = None
+        b: object = None
+    chunks = [tags[i:i + 40] for i in range(0, len(tags), 40)][:12]
+    firsts = [tree(ch[0], ch) for ch in chunks] + [tree(t, tags[:3]) for t in tags[:60]]
+    firsts += [[1, [2, [3]]], {"a": {"b": [1, {"c": 2}]}}, (1, (2, (3,))), [[]], {"_type": "x", "k": [{"_type": "y"}]}, _D(a=[_D(b={"k": 1})], b=(1, 2)),
+               "a;b", ["a", ["b"]], None, 0, ""]
+    funcs = []
+    for part_q in [p.strip() for p in q.split("+")]:
+        obj, owner = mod, None
+        try:
+            for part in part_q.split("."):
+                owner, obj = obj, getattr(obj, part)
+        except Exception:  # noqa
+            continue
+        if inspect.isclass(owner):
+            try:
+                inst = owner.__new__(owner)
+                obj = getattr(inst, part_q.split(".")[-1])
+            except Exception:  # noqa
+                continue
+        funcs.append((part_q, obj))
+    if not funcs:
+        return {"reproduced": False, "note": f"{q} is not importable (nested function): no native call"}
+    signal.signal(signal.SIGALRM, _alarm)
+    tried = 0
+    for part_q, obj in funcs:
+        try:
+            sig = inspect.signature(obj)
+        except Exception:  # noqa
+            continue
+        names = [n for n in sig.parameters]
+        if not names:
+            continue
+        others = []
+        for n in names[1:]:
+            p = sig.parameters[n]
+            if p.kind in (p.VAR_POSITIONAL, p.VAR_KEYWORD):
+                others.append([inspect.Parameter.empty])
+            elif p.default is not inspect.Parameter.empty:
+                others.append([p.default, True])
+            else:
+                others.append([[], "", True, 0, typing.Any])
+        for first in firsts:
+            for rest in itertools.islice(itertools.product(*others), 6):
+                kw = {n: (list(v) if isinstance(v, list) else v) for n, v in zip(names[1:], rest) if v is not inspect.Parameter.empty}
+                tried += 1
+                signal.alarm(5)
+                try:
+                    r = obj(first, **kw)
+                    if inspect.isgenerator(r):
+                        for _ in r:
+                            pass
+                except RecursionError:
+                    shown = ET.tostring(first)[:300].decode("ascii", "replace") if isinstance(first, ET.Element) else repr(first)[:200]
+                    return {"reproduced": True, "target": f"{modname}.{part_q}", "inputs": {"first_argument": shown, "other_arguments": {k: repr(v)[:40] for k, v in kw.items()}},
+                            "expected": "the recursion ends on a finite tree of depth <= 3",
+                            "observed": "RecursionError: the function recursed until the interpreter's limit"}
+                except _Timeout:
+                    return {"reproduced": True, "target": f"{modname}.{part_q}", "inputs": {"first_argument": repr(first)[:200]}, "expected": "terminates",
+                            "observed": "no return within 5 s"}
+                except Exception:  # noqa
+                    pass
+                finally:
+                    signal.alarm(0)
+    return {"reproduced": False, "note": f"{tried} native calls of {q} on small finite trees returned"}
+
+
 def find(req):
     repo = os.environ.get("VERIF_REPO", "/repo")
     hint = req.get("extra") or {}
@@ -1082,6 +1200,13 @@ def find(req):
         return {"reproduced": False, "note": f"{n_att} attachment cases (msg / eml documents, records built as the extractors build them): only the ExtractionError family escaped"}
     if "/decreases#regex-" in (req.get("obligation") or ""):
         return {"reproduced": False, "note": "no pumping text (pattern not read by the static analysis)"}
+    if "/decreases#recursion-" in (req.get("obligation") or "") or "/decreases#mutual-recursion-" in (req.get("obligation") or ""):
+        try:
+            r = recursion_search(req["obligation"], repo)
+        except Exception as e:  # noqa
+            r = {"reproduced": False, "note": f"recursion search failed: {type(e).__name__}: {e}"[:200]}
+        if r is not None:
+            return r
     if "/decreases#" in (req.get("obligation") or ""):
         _LAST_HANG.clear()
         r = hang_search(req["obligation"], repo)
